@@ -14,9 +14,7 @@ Groups
   lockstep    random editing sequences applied to the original and to the loaded copy
 """
 import copy
-import itertools
 import json
-from fractions import Fraction
 
 from common import c_Q, c_bool, c_list, c_opt, c_str, c_Z
 
@@ -35,7 +33,6 @@ FN_GRAPH = 'fun c => match c with (h, g, o) => agree_graph h g o :: holds_graph 
 K_GRAPH = 5
 FN_IND = 'fun c => match c with (h, i, o) => agree_ind h i o :: holds_ind h i o end'
 K_IND = 6
-FN_LOAD = 'fun c => match c with (j, frag, g, rs) => [agree_load j frag g rs] end'
 FN_LOCK = ('fun c => match c with (vo, vl, steps) => '
            '[agree_lock (Some vo) (Some vl) steps; holds_lock vo vl steps] end')
 
@@ -228,7 +225,7 @@ def build_graph(spec):
     return graph, objs
 
 
-def snap_nodes(objs, base=0, extra=()):
+def snap_nodes(objs, base=0):
     """cells of node objects: (uid, content copy, parent references, is UniqueList); references are
     base + position in `objs`; a None parent is the cell after the last one"""
     index = {id(n): base + i for i, n in enumerate(objs)}
@@ -396,7 +393,7 @@ def gen_graph_specs(ctx):
         rng.shuffle(order)
         specs.append(('dag4', mk('opt', pl, order)))
     # random: 4..6 nodes, cyclic or not, any listing order, real-looking uids now and then
-    n_rand = ctx.budget(700, 12000)
+    n_rand = ctx.budget(700, 10000)
     for _ in range(n_rand):
         n = rng.choice([4, 4, 4, 5, 5, 6])
         dag = rng.random() < 0.5
@@ -429,6 +426,7 @@ def run_graphs(ctx):
         cases.append(graph_case(spec, h, o))
         meta.append((origin, spec, o))
     ctx.set_exhaustive('graphs', False)
+    ctx.set_exhaustive('graphs-exhaustive', True)   # every digraph on <= 3 nodes, every 4-node DAG (fixed numbering)
     # canary
     cspec = specs[40][1]
     h, o = observe_graph(cspec)
@@ -443,7 +441,8 @@ def run_graphs(ctx):
         edges = sum(len(x['parents']) for x in spec['nodes'])
         styles = sorted({name_style(x['content']) for x in spec['nodes']})
         cyc = has_cycle(spec)
-        ctx.count('graphs', key=json.dumps(spec, sort_keys=True), nontrivial=(n >= 2 and edges >= 1),
+        ctx.count('graphs-exhaustive' if origin in ('exh3', 'dag4') else 'graphs',
+                  key=json.dumps(spec, sort_keys=True), nontrivial=(n >= 2 and edges >= 1),
                   origin=origin, nodes=n, cyclic=cyc, kind=spec['kind'],
                   int_named='int' in styles, unnamed='noname' in styles)
         case = {'group': 'graphs', 'spec': spec}
@@ -651,7 +650,7 @@ PRE = _make_pre()
 def gen_ind_specs(ctx):
     rng = ctx.rng
     out = []
-    n_ind = ctx.budget(450, 4500)
+    n_ind = ctx.budget(450, 4000)
     for i in range(n_ind):
         n = rng.choice([1, 2, 3, 4])
         pl = [[p for p in range(c) if rng.random() < 0.5] for c in range(n)]
@@ -788,7 +787,7 @@ def observe_load(tree, kind):
 
 def run_json_load(ctx):
     rng = ctx.rng
-    n = ctx.budget(250, 2500)
+    n = ctx.budget(250, 2000)
     cases, meta = [], []
     specs = [s for o, s in gen_graph_specs_small(ctx, n)]
     for spec in specs:
@@ -1023,7 +1022,7 @@ def lock_case(vo, vl, steps, tamper=False):
 
 def gen_lock_specs(ctx):
     rng = ctx.rng
-    n_seq = ctx.budget(1300, 13000)
+    n_seq = ctx.budget(1300, 11000)
     out = []
     counter = [0]
     for i in range(n_seq):
@@ -1120,35 +1119,56 @@ def run(ctx):
     run_lockstep(ctx)
 
 
+def replay_cases(ctx, cases):
+    """re-observes stored cases (replay files, corpus) and evaluates them, one coqc call per group"""
+    by = {'graphs': [], 'individuals': [], 'lockstep': []}
+    for case in cases:
+        if isinstance(case, dict) and case.get('group') in by:
+            by[case['group']].append(case)
+    if by['graphs']:
+        terms = []
+        for case in by['graphs']:
+            h, o = observe_graph(case['spec'])
+            terms.append(graph_case(case['spec'], h, o))
+        for case, r in zip(by['graphs'], ctx.coq_cases('replay', REQ, FN_GRAPH, terms, K_GRAPH, preamble=PRE)):
+            ctx.count('replay', key=json.dumps(case, sort_keys=True), nontrivial=True, kind='graphs')
+            if not r[0]:
+                ctx.disagree('replay', case, 'model and implementation differ on the round trip')
+            for ok, what in zip(r[1:], GRAPH_CLAUSES):
+                if not ok:
+                    ctx.violate('replay', case, what)
+    if by['individuals']:
+        terms = []
+        for case in by['individuals']:
+            h, term, o = observe_individual(case['spec'], case.get('via_methods', False))
+            terms.append(ind_case(case['spec'], h, term, o))
+        for case, r in zip(by['individuals'], ctx.coq_cases('replay', REQ, FN_IND, terms, K_IND, preamble=PRE)):
+            ctx.count('replay', key=json.dumps(case, sort_keys=True), nontrivial=True, kind='individuals')
+            if not r[0]:
+                ctx.disagree('replay', case, 'model and implementation differ on the individual round trip')
+            for ok, what in zip(r[1:], IND_CLAUSES):
+                if not ok:
+                    ctx.violate('replay', case, what)
+    if by['lockstep']:
+        terms = []
+        for case in by['lockstep']:
+            ops = [tuple(o) for o in case['ops']]
+            vo, vl, steps = lock_run(case['spec'], ops, case.get('via_individual', False))
+            terms.append(lock_case(vo, vl, steps))
+        for case, r in zip(by['lockstep'], ctx.coq_cases('replay', REQ, FN_LOCK, terms, 2, preamble=PRE)):
+            ctx.count('replay', key=json.dumps(case, sort_keys=True), nontrivial=True, kind='lockstep')
+            if not r[0]:
+                ctx.disagree('replay', case, 'model of the editing operations differs from the implementation')
+            if not r[1]:
+                ctx.violate('replay', case, 'the loaded copy and the original differ after the same editing operations')
+
+
 def replay(ctx, payload):
+    """a replay file written by the runner (one case) or a corpus file {'cases': [...]}"""
+    if isinstance(payload, dict) and 'cases' in payload:
+        replay_cases(ctx, payload['cases'])
+        return
     v = payload.get('violation') or payload.get('first_disagreement') or payload
     case = v.get('case') if isinstance(v, dict) else None
-    if not case or 'group' not in case:
-        return
-    grp = case['group']
-    if grp == 'graphs':
-        h, o = observe_graph(case['spec'])
-        r = ctx.coq_cases('replay', REQ, FN_GRAPH, [graph_case(case['spec'], h, o)], K_GRAPH, preamble=PRE)[0]
-        ctx.count('replay', key=json.dumps(case, sort_keys=True), nontrivial=True)
-        if not r[0]:
-            ctx.disagree('replay', case, 'model and implementation differ on the round trip')
-        for ok, what in zip(r[1:], GRAPH_CLAUSES):
-            if not ok:
-                ctx.violate('replay', case, what)
-    elif grp == 'individuals':
-        h, term, o = observe_individual(case['spec'], False)
-        r = ctx.coq_cases('replay', REQ, FN_IND, [ind_case(case['spec'], h, term, o)], K_IND, preamble=PRE)[0]
-        ctx.count('replay', key=json.dumps(case, sort_keys=True), nontrivial=True)
-        if not r[0]:
-            ctx.disagree('replay', case, 'model and implementation differ on the individual round trip')
-        for ok, what in zip(r[1:], IND_CLAUSES):
-            if not ok:
-                ctx.violate('replay', case, what)
-    elif grp == 'lockstep':
-        vo, vl, steps = lock_run(case['spec'], [tuple(o) for o in case['ops']], case.get('via_individual', False))
-        r = ctx.coq_cases('replay', REQ, FN_LOCK, [lock_case(vo, vl, steps)], 2, preamble=PRE)[0]
-        ctx.count('replay', key=json.dumps(case, sort_keys=True), nontrivial=True)
-        if not r[0]:
-            ctx.disagree('replay', case, 'model of the editing operations differs from the implementation')
-        if not r[1]:
-            ctx.violate('replay', case, 'the loaded copy and the original differ after the same editing operations')
+    if case:
+        replay_cases(ctx, [case])
